@@ -218,12 +218,32 @@ class Backend(ABC):
             for query in (
                 self.convert_rule(rule, output_format or self.default_format, callback)
                 if isinstance(rule, SigmaRule)
-                else self.convert_correlation_rule(
+                else self._convert_correlation_rule_collecting_errors(
                     rule, output_format or self.default_format, correlation_method, callback
                 )
             )
         ]
         return self.finalize(queries, output_format or self.default_format)
+
+    def _convert_correlation_rule_collecting_errors(
+        self,
+        rule: SigmaCorrelationRule,
+        output_format: str | None = None,
+        method: str | None = None,
+        callback: (
+            Callable[[SigmaRule | SigmaCorrelationRule, str | None, int, Any, Any], Any] | None
+        ) = None,
+    ) -> list[Any]:
+        """Conversion of a correlation rule as part of a rule collection: like for plain rules, a
+        Sigma error is recorded instead of raised if the backend collects errors."""
+        try:
+            return self.convert_correlation_rule(rule, output_format, method, callback)
+        except SigmaError as e:
+            if self.collect_errors:
+                self.errors.append((rule, e))
+                return []
+            else:
+                raise e
 
     def convert_rule(
         self,
